@@ -261,6 +261,10 @@ def run(ctx: core.Ctx, only=None) -> core.Result:
     else:
         specs = [c.get('spec', c) for c in core.corpus_cases('C08')] + \
             [sc.gen_system_spec(ctx.rng) for _ in range(ctx.scale(7, 40))]
+        for k_, sp_ in enumerate(specs):
+            if k_ % 2 == 1:      # very expensive models: all indicators are tiny numbers, their ORDER still decides
+                for c_ in sp_['comps']:
+                    c_['cost'] = 'huge'
     for i, spec in enumerate(specs):
         with core.guarded(res, 'scenario-raised', {'spec': spec}):
             run_training_case(ctx, res, spec, lines, post)
